@@ -227,15 +227,22 @@ def run(ctx, chk):
     ok = "let mut operands = vec![inst.operands[0].disassemble(), grammar.opname.to_string()];" in te and \
         "for operand in &inst.operands[2..] { operands.push(operand.disassemble()) }" in te and 'disas_instruction(inst, " ", |_| operands.join(" "))' in te
     chk.check(R6, ok, "disas_ext_inst:all-operands", "disas_ext_inst is %s" % te[:400], raw.where("disas_ext_inst", None, "disassemble.rs"), key="C07:extinst")
-    ft = ctx.rspirv.fn("rspirv::binary::tracker", "track", "ExtInstSetTracker")
-    tt = show(ft["body"])
-    ok = re.search(r'if \(\w+ == "GLSL\.std\.450"\) \{ self\.sets\.insert\(inst\.result_id\.unwrap\(\), ExtInstSet::GlslStd450\); \}', tt) is not None and \
-        re.search(r'if \(\w+ == "OpenCL\.std"\) \{ self\.sets\.insert\(inst\.result_id\.unwrap\(\), ExtInstSet::OpenCLStd100\); \}', tt) is not None
-    chk.check(R6, ok, "ext-set-names", "set name mapping: %s" % tt[:300], raw.where("track", "ExtInstSetTracker"))
-    fr = ctx.rspirv.fn("rspirv::binary::tracker", "resolve", "ExtInstSetTracker")
-    tr_ = show(fr["body"])
-    ok = "ExtInstSet::GlslStd450 => GGlInstTable::lookup_opcode(opcode)" in tr_ and "ExtInstSet::OpenCLStd100 => GClInstTable::lookup_opcode(opcode)" in tr_
-    chk.check(R6, ok, "ext-set-tables", "resolve is %s" % tr_[:200], raw.where("resolve", "ExtInstSetTracker"))
+    from . import extx
+    WT_ = raw.where("track", "ExtInstSetTracker")
+    for name, opcode, rid, ops, want in extx.track_cases():
+        try:
+            res = extx.track_eval(ctx, opcode, rid, ops)
+        except Anchor as ex:
+            chk.bad(R6, "ext-set-track(%s)" % name, "ExtInstSetTracker::track is not analysable: %s" % ex, WT_, key="C07:extset-shape")
+            continue
+        chk.check(R6, res == ("ok", want), "ext-set-track(%s)" % name, "records %s, expected %s" % (res, want), WT_, key="C07:extset:%s" % name)
+    for known, table in (("GlslStd450", "GGlInstTable"), ("OpenCLStd100", "GClInstTable"), (None, None)):
+        try:
+            r = extx.resolve_eval(ctx, known)
+            want = ("lookup", table, ("sym", "OPCODE")) if known else ("none",)
+            chk.check(R6, r == want, "ext-set-resolve(%s)" % known, "resolve yields %s, expected %s" % (r, want), raw.where("resolve", "ExtInstSetTracker"))
+        except Anchor as ex:
+            chk.bad(R6, "ext-set-resolve(%s)" % known, "not analysable: %s" % ex, raw.where("resolve", "ExtInstSetTracker"))
     uses = [n for n in walk(ctx.rspirv.module("rspirv::binary::tracker")["items"]) if n[0] == "use"]
     mod_uses = [i["tree"] for i in ctx.rspirv.items("rspirv::binary::tracker", "use")]
     chk.check(R6, any("GlslStd450InstructionTable as GGlInstTable" in u for u in mod_uses) and any("OpenCLStd100InstructionTable as GClInstTable" in u for u in mod_uses),
